@@ -2,6 +2,7 @@ import CvssVerif.Model.V3
 import CvssVerif.Model.V2
 import CvssVerif.Spec.Grammar3
 import CvssVerif.Spec.Grammar2
+import CvssVerif.Driver.Dump
 /-
   Extension operations of the driver.
   `SPEC3` / `SPEC2`: the *specification's* verdict on a string (model-independent oracle used
@@ -192,6 +193,57 @@ def spect2 (name : String) : Option String :=
   | "CR" | "IR" | "AR" => some (w [Req.L, .M, .H, .ND] Req.code wReq)
   | _ => none
 
+/-! ### observers on nil / fresh receivers, field resets, huge inputs (C12) -/
+
+def nilOk (isNil : Bool) : String := if isNil then "nil" else "ok"
+
+def obs3 (L : Level) (o : Option V3.Obj3) : String :=
+  let s := hex16 (V3.scoreN L o)
+  let sv := V3.severityF (V3.scoreN L o)
+  let enc := V3.encodeN L o
+  let base := s!"s={s} sv={sv} ge={errTag (V3.getErrorN L o)} enc={toHex enc.1}|{errTag enc.2} str={toHex enc.1}"
+  match L with
+  | .base => base ++ s!" bm={nilOk o.isNone}"
+  | .temporal => base ++ s!" bm={nilOk o.isNone}"
+  | .environmental => base ++ s!" bm={nilOk o.isNone} tm={nilOk o.isNone}"
+
+def obs2 (L : Level) (o : Option V2.Obj2) : String :=
+  let s := hex16 (V2.scoreN L o)
+  let sv := V2.severityF (V2.scoreN L o)
+  let enc := V2.encodeN L o
+  let base := s!"s={s} sv={sv} ge={errTag (V2.getErrorN L o)} enc={toHex enc.1}|{errTag enc.2} str={toHex enc.1}"
+  match L with
+  | .base => base
+  | .temporal => base ++ s!" bm={nilOk o.isNone}"
+  | .environmental => base ++ s!" bm={nilOk o.isNone} tm={nilOk o.isNone}"
+
+def kindObj3 (k : String) : Option (Option V3.Obj3) :=
+  if k == "nil" then some none else if k == "fresh" then some (some V3.Obj3.new) else none
+def kindObj2 (k : String) : Option (Option V2.Obj2) :=
+  if k == "nil" then some none else if k == "fresh" then some (some V2.Obj2.new) else none
+
+def opF3 (L : Level) (vec : Bytes) (name : String) (v : Int) : String :=
+  let (o, _) := V3.decode L V3.Obj3.new vec
+  if name == "Ver" then dump3 L { o with ver := v }
+  else match (V3.msOf L).find? (fun m => bytesToStr m.spec.name == name) with
+    | some m => dump3 L (o.set m v)
+    | none => "nofield"
+
+def opF2 (L : Level) (vec : Bytes) (name : String) (v : Int) : String :=
+  let (o, _) := V2.decode L V2.Obj2.new vec
+  match (V2.msOf L).find? (fun m => bytesToStr m.spec.name == name) with
+  | some m => dump2 L (o.set m v)
+  | none => "nofield"
+
+def opBig (ver : String) (L : Level) (head unit : Bytes) (n : Nat) : String :=
+  let s := head ++ (List.replicate n unit).flatten
+  if ver == "3" then
+    let (_, e) := V3.decode L V3.Obj3.new s
+    s!"r={if e.isNone then "1" else "0"} e={errTag e}"
+  else
+    let (_, e) := V2.decode L V2.Obj2.new s
+    s!"r={if e.isNone then "1" else "0"} e={errTag e}"
+
 def runOpExt (f : List String) : Option String :=
   match f with
   | ["SPEC3", l, h] => do
@@ -209,6 +261,14 @@ def runOpExt (f : List String) : Option String :=
   | ["T3", m, op, arg] => do let m ← m3OfName m; tab3 m op arg
   | ["T2", m, op, arg] => do let m ← m2OfName m; tab2 m op arg
   | ["TV", op, arg] => tabVer op arg
+  | ["Q3", l, k] => do let L ← levelOf' l; let o ← kindObj3 k; pure (obs3 L o)
+  | ["Q2", l, k] => do let L ← levelOf' l; let o ← kindObj2 k; pure (obs2 L o)
+  | ["F3", l, h, name, v] => do
+      let L ← levelOf' l; let s ← ofHex h; let v ← v.toInt?; pure (opF3 L s name v)
+  | ["F2", l, h, name, v] => do
+      let L ← levelOf' l; let s ← ofHex h; let v ← v.toInt?; pure (opF2 L s name v)
+  | ["BIG", ver, l, hd, unit, n] => do
+      let L ← levelOf' l; let hd ← ofHex hd; let u ← ofHex unit; let n ← n.toNat?; pure (opBig ver L hd u n)
   | ["SPECT3", m] => spect3 m
   | ["SPECT2", m] => spect2 m
   | _ => none
